@@ -123,6 +123,7 @@ class UnitResult:
         self.tobl_lines = {}
         self.degraded = []
         self.impl_of = {}
+        self.rejected = []      # [(function id or None, message)]: Verus refused the unit (unsupported construct ...)
 
 
 def scan_trusted(gen_path):
@@ -321,6 +322,12 @@ def _digest(res, run, m):
             continue
         if c == "other":
             res.undecided.append("verus rejected the unit: " + d["message"] + " @ " + _span_str(spans))
+            rfn = None
+            for sp in spans:
+                rfn = rfn or _fn_of_line(m, sp["line_start"])
+            if not hasattr(res, "rejected"):
+                res.rejected = []
+            res.rejected.append((rfn, d["message"]))
             continue
         # semantic: find the obligation
         obl = None
